@@ -1599,7 +1599,8 @@ impl Formatter<'_> {
 
         self.format_inner_items(&func.lines, false, depth + 1);
         if extra_newline && !func.lines.last().is_some_and(|item| item.is_empty_line()) {
-            self.newline(depth.saturating_sub(1));
+            // Where a trailing newline puts the closing parenthesis when formatted again
+            self.newline(depth);
         }
         self.output.push(')');
     }
